@@ -15,6 +15,17 @@ Fixpoint nodup_b (ks : list bytes) : bool :=
 Definition has_named_field (fs : list (bytes * fval)) : bool :=
   existsb (fun kv => match fst kv with [] => false | _ => true end) fs.
 
+(** the series key split at its unescaped commas (first segment = measurement) *)
+Fixpoint segs_loop (prev : N) (cur : bytes) (l : bytes) : list bytes :=
+  match l with
+  | [] => [frev cur]
+  | c :: t => if (c =? COMMA) && negb (prev =? BSL) then frev cur :: segs_loop c [] t
+              else segs_loop c (c :: cur) t
+  end.
+(** tags in Key() strictly increasing by (escaped) tag key: sorted and unique *)
+Definition key_tags_sorted (key : bytes) : bool :=
+  strictly_sorted (map tag_key (tl (segs_loop 0 [] key))).
+
 Definition wf_view (v : pview) : bool :=
   match v_name v with [] => false | _ => true end
   && has_named_field (v_fields v)
@@ -22,7 +33,8 @@ Definition wf_view (v : pview) : bool :=
      (* every typed accessor of the FieldIterator succeeds (no error, no panic) *)
   && nodup_b (map fst (v_tags v))
   && forallb (fun kv => blen (v_key v) + 4 + blen (fst kv) <=? MaxKeyLength) (v_fields v)
-  && time_ok (v_time v).
+  && time_ok (v_time v)
+  && key_tags_sorted (v_key v).
 
 (** [a] is a subsequence of [b] *)
 Fixpoint subseq_b (a b : list bytes) : bool :=
